@@ -42,6 +42,10 @@ def gen_module(seed):
         main.add_state_order(c1, c3)
     if rnd.random() < 0.5:
         main.add_state_order(c2, c4)
+    if rnd.random() < 0.5:
+        # a node with several incoming order edges, the first of them from the region's Input
+        main.add_state_order(main.input_node, c4)
+        main.add_state_order(c1, c4)
     # constants loaded more than once
     if konst is not None:
         l1, l2 = main.load(konst), main.load(konst)
